@@ -207,6 +207,8 @@ impl Snapshot {
 		let active = guardian::ArcRwLockReadGuardian::take(Arc::clone(&core.active_memtable))?;
 		let immutable =
 			guardian::ArcRwLockReadGuardian::take(Arc::clone(&core.immutable_memtables))?;
+		#[cfg(surrealkv_verif)]
+		crate::verif::yield_point("iter-state:between-locks");
 		let manifest = guardian::ArcRwLockReadGuardian::take(Arc::clone(&core.level_manifest))?;
 
 		Ok(IterState {
